@@ -594,7 +594,7 @@ def demoSchedule : List Ev :=
     .sendCheck ⟨1, false, 0⟩, .sendPush ⟨1, false, 0⟩,
     .sendCheck ⟨2, true, 4⟩, .pollStop, .sendPush ⟨2, true, 4⟩, .pollMsg,
     .stopSwap, .stopPush, .handlerEnd true, .pollStop,
-    .beginStop, .preStop true, .dropRx, .postStop true, .release ]
+    .beginStop, .preStop true, .dropRx, .postStop true, .release, .notifyExit ]
 
 example : ∃ s, run (St.init 2 true) demoSchedule = some s ∧
     s.pc = .exited .stopped ∧ s.handled = [1] ∧ s.accepted = [1, 2] ∧ s.tok = .dropped ∧
